@@ -142,6 +142,23 @@ func genScene(r *rig.Rng) *scene {
 	if r.Chance(1, 4) {
 		s.wy = r.Pick8([]uint8{0, 1, 142, 143, 144, 150, 255})
 	}
+	if r.Chance(1, 6) {
+		// window and background aligned on tile boundaries, different maps
+		s.scx, s.scy = uint8(r.Intn(32))*8, uint8(r.Intn(32))*8
+		s.wx, s.wy = 7+uint8(r.Intn(20)), uint8(r.Intn(3))*8
+		if r.Bool() {
+			s.wx = 166 - s.scx/8*8 - uint8(r.Intn(8))
+			if s.wx < 7 || s.wx > 166 {
+				s.wx = 15
+			}
+		}
+		s.lcdc |= 0x20
+		if s.lcdc&0x08 != 0 {
+			s.lcdc &^= 0x40
+		} else {
+			s.lcdc |= 0x40
+		}
+	}
 	s.bgp, s.obp0, s.obp1 = r.U8(), r.U8(), r.U8()
 	if r.Chance(1, 2) {
 		s.bgp = 0xe4
@@ -151,6 +168,7 @@ func genScene(r *rig.Rng) *scene {
 	var objs []obj
 	var perLine [160 + 16]int
 	n := r.Intn(41)
+	crowd := r.Chance(1, 5)
 	for k := 0; k < n; k++ {
 		var o obj
 		switch r.Intn(8) {
@@ -171,6 +189,15 @@ func genScene(r *rig.Rng) *scene {
 		case 2:
 			o.x = r.Pick8([]uint8{0, 168, 169, 255})
 		default:
+			o.x = 8 + uint8(r.Intn(153))
+		}
+		if crowd {
+			// many objects on the last and on the first visible line
+			if k%2 == 0 {
+				o.y = 152 + uint8(r.Intn(8)) // rows ending at or covering line 143
+			} else {
+				o.y = 9 + uint8(r.Intn(8)) // rows covering line 0
+			}
 			o.x = 8 + uint8(r.Intn(153))
 		}
 		o.t = r.U8()
